@@ -5,11 +5,15 @@ package harness
 // Both are decided on two-run histories in a scratch working directory.
 
 import (
+	"flag"
 	"fmt"
 	"os"
+	"os/exec"
 	"path/filepath"
+	"regexp"
 	"strings"
 	"testing"
+	"time"
 
 	"pgregory.net/rapid"
 )
@@ -272,12 +276,95 @@ func c17Scenarios(cfg runCfg) []Scenario {
 			out = append(out, Scenario{Family: fam, Seed: mix(cfg.seed, 17, uint64(i)), K: 1 + i%6})
 		}
 	}
+	// a stale fail file whose replay is slow, under a real *testing.T with a test deadline (child process)
+	if cfg.shard%8 == 3 {
+		out = append(out, Scenario{Family: "slow-stale-file", Seed: mix(cfg.seed, 17, 99, uint64(cfg.shard))})
+	}
 	return out
+}
+
+// TestStaleSlowChild only runs in the child processes started by the C17 "slow-stale-file" family: with
+// C17_STALE=1 a fail file that no longer fails (and takes 3.5 s to replay) is present.
+func TestStaleSlowChild(t *testing.T) {
+	mode := os.Getenv("C17_STALE")
+	if mode == "" {
+		t.Skip("not a C17 child")
+	}
+	defer os.RemoveAll("testdata")
+	// rapidVersion() runs a Check of its own under flags of its own: keep the flags this process was started with
+	saved := map[string]string{}
+	flag.VisitAll(func(f *flag.Flag) {
+		if strings.HasPrefix(f.Name, "rapid.") {
+			saved[f.Name] = f.Value.String()
+		}
+	})
+	ver := rapidVersion()
+	for k, v := range saved {
+		if err := flag.Set(k, v); err != nil {
+			t.Fatal(err)
+		}
+	}
+	if mode == "1" {
+		writeFailFile(t.Name(), "20260101000000-1", ver, 1, []uint64{7, 7, 7, 7}, "stale")
+	}
+	fmt.Println("STALE-CHILD-RAN")
+	var h uint64
+	n := 0
+	rapid.Check(t, func(rt *rapid.T) {
+		if rapid.VerifStreamOf(rt).Kind == "buffer" {
+			time.Sleep(3500 * time.Millisecond) // the old test case still runs (slowly), it just passes now
+			rapid.Uint64().Draw(rt, "v")
+			return
+		}
+		n++
+		h = mix(h, rapid.Uint64().Draw(rt, "v"))
+	})
+	fmt.Printf("STALE-CHILD-RESULT cases=%d digest=%x\n", n, h)
 }
 
 func c17Run(t *testing.T, sc Scenario, res *Result) {
 	defer os.RemoveAll("testdata")
 	os.RemoveAll("testdata")
+	if sc.Family == "slow-stale-file" {
+		self, _ := os.Executable()
+		seed := fmt.Sprint(sc.Seed%1000003 + 1)
+		var got [2]string
+		for i, mode := range []string{"0", "1"} {
+			cmd := exec.Command(self, "-test.run", "^TestStaleSlowChild$", "-test.timeout", "15s", "-test.v", "-rapid.seed", seed, "-rapid.checks", "100")
+			cmd.Env = append(os.Environ(), "C17_STALE="+mode)
+			began := time.Now()
+			out, _ := cmd.CombinedOutput()
+			text := string(out)
+			if time.Since(began) > 9*time.Second {
+				// the machine is so busy that the child came close to its own deadline: rapid may then legitimately stop early
+				res.inconclusive("stale-file child took more than 9 of its 15 seconds")
+				return
+			}
+			m := regexp.MustCompile(`STALE-CHILD-RESULT (cases=\d+ digest=[0-9a-f]+)`).FindStringSubmatch(text)
+			switch {
+			case strings.Contains(text, "test timed out"):
+				res.inconclusive("stale-file child hit the go test timeout")
+				return
+			case m == nil || !strings.Contains(text, "STALE-CHILD-RAN"):
+				res.inconclusive("stale-file child did not finish: " + clip(text, 300))
+				return
+			}
+			got[i] = m[1]
+			if !strings.Contains(text, "--- PASS: TestStaleSlowChild") {
+				res.violate(sc, "c17/slow-stale-verdict", "a never-failing property did not pass (stale file present: "+mode+"): "+clip(text, 400), nil)
+			}
+			if mode == "1" && !strings.Contains(text, "no longer fails") {
+				res.violate(sc, "c17/slow-stale-log", "the stale fail file was ignored without a log line: "+clip(text, 400), nil)
+			}
+		}
+		res.inc("checks_run")
+		res.inc("slow_stale_file_children")
+		res.nontrivial("slow-stale-file/" + got[0])
+		if got[0] != got[1] || !strings.HasPrefix(got[0], "cases=100 ") {
+			res.violate(sc, "c17/slow-stale-cases", fmt.Sprintf("under a test deadline of 15 s the random test cases differ: without the stale fail file %q, with it (replay takes 3.5 s) %q", got[0], got[1]), nil)
+		}
+		return
+	}
 	r := newRng(sc.Seed, 0xc17)
 	name := fmt.Sprintf("C17_%x", sc.Seed&0xfffff)
 	thrLow, thrHigh := int64(r.between(2, 50)), int64(1)<<uint(r.between(20, 50))
